@@ -26,6 +26,7 @@ static bool inv_config(const Instance& f) {
     if (a != INVALID_PRONG && a >= VM_SPEC[s].width) return false;
     const Prong res = r.compoResumable[VM_SPEC[s].fork];
     if (res != INVALID_PRONG && res >= VM_SPEC[s].width) return false;
+    if (res != INVALID_PRONG && !spec_activated(f)) return false;     // a machine that is not activated remembers nothing (exit() clears the marks)
   }
   return true;
 }
@@ -64,7 +65,7 @@ static void sync_monitor(const Instance& f) {
   for (int s = 0; s < VM_NS; ++s) { g_sel_called[s] = g_rank_called[s] = g_util_called[s] = false; } g_rng_draws = 0;
   g_trace_len = 0; g_log_len = 0; g_log_transitions = 0; g_log_cancels = 0; g_requests_issued = 0; g_cancels_issued = 0; g_deterministic = false;
   g_pay_n = 0; g_actor = -1; g_action = 0; for (int s = 0; s < VM_NS; ++s) { g_plan_succeeded[s] = 0; g_plan_failed[s] = 0; }
-  g_sub_guard = -1; g_sub_done = false; g_sub_forever = false; g_round_now = 0; g_cancel_round[1] = g_cancel_round[2] = false; g_sub_guard_calls = 0;
+  g_sub_nocancel = false; g_sub_guard = -1; g_sub_done = false; g_sub_forever = false; g_round_now = 0; g_cancel_round[1] = g_cancel_round[2] = false; g_sub_guard_calls = 0;
 }
 // enumerate the well-formed ACTIVE configurations of the declaration (case key for update/react): configuration #k
 static unsigned cfg_count_rec(int s);
